@@ -7,6 +7,7 @@ import (
 	"math"
 	"os"
 	"sort"
+	"sync"
 	"time"
 
 	"github.com/RoaringBitmap/roaring/v2"
@@ -836,6 +837,14 @@ func checkC15(c *ctx) {
 		c.Violation("C15 "+bad, false)
 		return
 	}
+	if bad := manyInputVectorMerge(c); bad != "" {
+		c.Violation("C15 "+bad, false)
+		return
+	}
+	if bad := concurrentVectorMerges(c); bad != "" {
+		c.Violation("C15 "+bad, false)
+		return
+	}
 	if bad := hugeVectorMerge(c); bad != "" {
 		c.Violation("C15 merge of 1100 + 1100 documents with 128-dimensional vectors, 10 deletions (2190 surviving vectors, more than 2^18 floats)\n"+bad, false)
 		return
@@ -999,4 +1008,130 @@ func checkC15(c *ctx) {
 			return
 		}
 	}
+}
+
+// manyInputVectorMerge: one merge call with 70 inputs (most of one document; the first ones without a
+// vector field), vectors surviving in inputs beyond the 64th.
+func manyInputVectorMerge(c *ctx) string {
+	o := genVecOpts(c)
+	o.nVecFs = 0
+	o.dims["vec"], o.sim["vec"], o.opt["vec"] = 3, "l2_norm", "recall"
+	var ins []*segEnt
+	var vs []sx.V
+	var drops [][]uint64
+	var nilBM []bool
+	for i := 0; i < 70; i++ {
+		var b zh.Batch
+		for d := 0; d < 1+i%2; d++ {
+			doc := zh.Doc{Fields: []zh.Field{zh.IDField(fmt.Sprintf("m%02d%d", i, d))}}
+			if i >= 3 {
+				doc.Fields = append(doc.Fields, zh.Field{Name: "vec", Typ: 'v', Vec: &zh.VecDef{Dims: 3, Sim: "l2_norm", Opt: "recall", Data: randVec(c, 3)}})
+			} else {
+				doc.Fields = append(doc.Fields, zh.Field{Name: "body", Len: 1, Toks: []zh.Tok{{Term: "x", Freq: 1}}})
+			}
+			b = append(b, doc)
+		}
+		e, err := newBuilt(c, b, 1026, i%5 == 0)
+		must(err)
+		ins, vs = append(ins, e), append(vs, vecSpec(c, b))
+		if i%9 == 4 && len(b) == 2 {
+			drops, nilBM = append(drops, []uint64{0}), append(nilBM, false)
+		} else {
+			drops, nilBM = append(drops, nil), append(nilBM, true)
+		}
+	}
+	mc := &mergeCase{ins: ins, drops: drops, nilBM: nilBM, mode: 1026}
+	spec, maps := specMerge(c, mc)
+	mv := ask(c, sx.L(sx.N(zh.ReqMergeVec), sx.List(vs), maps))
+	if _, bad := sx.IsErr(mv); bad {
+		mustH(fmt.Errorf("model rejected merge_vfields"))
+	}
+	r := runMerge(c, mc)
+	if r.err != nil || r.seg == nil {
+		return fmt.Sprintf("merge of 70 inputs failed: %v", r.err)
+	}
+	defer r.seg.Close()
+	c.Case("vector-merge-70-inputs", true)
+	c.Count("vector_merges_with_70_inputs")
+	bad := vectorQueriesOn(c, r.seg, mv, spec.L[pNDocs].N, o, 12, "one merge call with 70 inputs (the first three without the vector field), re-opened", "vec")
+	for _, e := range ins {
+		e.close()
+	}
+	return bad
+}
+
+// concurrentVectorMerges: six independent merges (their own inputs, their own outputs) in flight at
+// the same time; each output must be what its inputs dictate.
+func concurrentVectorMerges(c *ctx) string {
+	o := genVecOpts(c)
+	o.nVecFs = 0
+	o.dims["vec"], o.sim["vec"], o.opt["vec"] = 4, "l2_norm", "recall"
+	type task struct {
+		mc   *mergeCase
+		mv   sx.V
+		spec sx.V
+		r    *mergeResult
+	}
+	for round := 0; round < c.n(6, 60); round++ {
+		var tasks []*task
+		for t := 0; t < 6; t++ {
+			mk := func(id string, n int) (*segEnt, sx.V) {
+				var b zh.Batch
+				for d := 0; d < n; d++ {
+					b = append(b, zh.Doc{Fields: []zh.Field{zh.IDField(fmt.Sprintf("%s%d%02d", id, t, d)),
+						{Name: "vec", Typ: 'v', Vec: &zh.VecDef{Dims: 4, Sim: "l2_norm", Opt: "recall", Data: randVec(c, 4)}}}})
+				}
+				e, err := newBuilt(c, b, 1026, false)
+				must(err)
+				return e, vecSpec(c, b)
+			}
+			e1, v1 := mk("c", 300+30*t)
+			e2, v2 := mk("d", 250+10*t)
+			mc := &mergeCase{ins: []*segEnt{e1, e2}, drops: [][]uint64{{1}, nil}, nilBM: []bool{false, true}, mode: 1026}
+			spec, maps := specMerge(c, mc)
+			mv := ask(c, sx.L(sx.N(zh.ReqMergeVec), sx.L(v1, v2), maps))
+			if _, bad := sx.IsErr(mv); bad {
+				mustH(fmt.Errorf("model rejected merge_vfields"))
+			}
+			tasks = append(tasks, &task{mc: mc, mv: mv, spec: spec})
+		}
+		var wg sync.WaitGroup
+		for _, tk := range tasks {
+			wg.Add(1)
+			go func(tk *task) {
+				defer wg.Done()
+				defer func() {
+					if p := recover(); p != nil {
+						tk.r = &mergeResult{err: fmt.Errorf("PANIC %v", p)}
+					}
+				}()
+				tk.r = runMerge(c, tk.mc)
+			}(tk)
+		}
+		wg.Wait()
+		c.Count("rounds_of_six_concurrent_vector_merges")
+		bad := ""
+		for ti, tk := range tasks {
+			if tk.r == nil || tk.r.err != nil || tk.r.seg == nil {
+				bad = fmt.Sprintf("merge %d of six concurrent ones failed: %v", ti, tk.r.err)
+			} else if bad == "" {
+				if b := vectorQueriesOn(c, tk.r.seg, tk.mv, tk.spec.L[pNDocs].N, o, 6, fmt.Sprintf("six independent vector merges in flight at the same time (round %d); output of merge %d, re-opened", round, ti), "vec"); b != "" {
+					bad = b
+				}
+			}
+			if tk.r != nil && tk.r.seg != nil {
+				tk.r.seg.Close()
+			}
+			for _, e := range tk.mc.ins {
+				e.close()
+				if sbb, ok := e.seg.(*zap.SegmentBase); ok {
+					sbb.Close()
+				}
+			}
+		}
+		if bad != "" {
+			return bad
+		}
+	}
+	return ""
 }
